@@ -99,9 +99,30 @@ func splitType(t string) (base string, arr bool, k int) {
 	return base, true, k
 }
 
+// parseDims splits "T[2][]" into T and [2, 0] (in order of appearance = innermost first; 0 = dynamic).
+func parseDims(t string) (base string, dims []int) {
+	i := strings.IndexByte(t, '[')
+	if i < 0 {
+		return t, nil
+	}
+	base = t[:i]
+	for _, part := range strings.Split(strings.TrimSuffix(t[i+1:], "]"), "][") {
+		k := 0
+		if part != "" {
+			fmt.Sscanf(part, "%d", &k)
+		}
+		dims = append(dims, k)
+	}
+	return base, dims
+}
+
 func isDynamicType(t string) bool {
-	b, arr, k := splitType(t)
-	return b == "bytes" || b == "string" || (arr && k == 0)
+	b, dims := parseDims(t)
+	dyn := b == "bytes" || b == "string"
+	for _, k := range dims {
+		dyn = dyn || k == 0
+	}
+	return dyn
 }
 
 // mkDecl renders the spec as a reference declaration (integration ig1, table t1, source src1 from block 1).
@@ -136,9 +157,15 @@ func boundary(base string) []*big.Int {
 		if len(base) > 4 {
 			fmt.Sscanf(base[4:], "%d", &n)
 		}
-		return []*big.Int{
+		out := []*big.Int{
 			big.NewInt(0), big.NewInt(1), new(big.Int).Sub(pow2(n), one), pow2(n - 1), new(big.Int).Sub(pow2(n-1), one),
 		}
+		for _, v := range machineWordEdges() { // value (not width) boundaries: the signed / unsigned 64-bit machine word
+			if v.BitLen() <= n {
+				out = append(out, v)
+			}
+		}
+		return out
 	}
 	n = 256
 	if len(base) > 3 {
@@ -146,8 +173,27 @@ func boundary(base string) []*big.Int {
 	}
 	max := new(big.Int).Sub(pow2(n-1), one)
 	min := new(big.Int).Neg(pow2(n - 1))
-	return []*big.Int{
+	out := []*big.Int{
 		big.NewInt(0), big.NewInt(1), big.NewInt(-1), max, min, new(big.Int).Add(min, one), new(big.Int).Sub(max, one), big.NewInt(-2),
+	}
+	for _, v := range machineWordEdges() {
+		if v.Cmp(max) <= 0 {
+			out = append(out, v)
+		}
+		if m := new(big.Int).Neg(v); m.Cmp(min) >= 0 {
+			out = append(out, m)
+		}
+	}
+	return out
+}
+
+// machineWordEdges: 2^63-1, 2^63, 2^63+1, 2^64-1, 2^64, 2^64+1 and a value between 2^63 and 2^64.
+func machineWordEdges() []*big.Int {
+	one := big.NewInt(1)
+	mid, _ := new(big.Int).SetString("12500000000000000000", 10)
+	return []*big.Int{
+		new(big.Int).Sub(pow2(63), one), pow2(63), new(big.Int).Add(pow2(63), one), mid,
+		new(big.Int).Sub(pow2(64), one), pow2(64), new(big.Int).Add(pow2(64), one),
 	}
 }
 
@@ -194,11 +240,40 @@ var shapes = [][][]int{
 	{{1}, {2, 3}, {1, 1}}, // 3 blocks, 8 logs
 	{{2, 2}, {2, 2}},      // C14: 2 blocks x 2 txs x 2 logs (x 2 traces)
 	{{3, 2}, {1, 3}},      // 2 blocks, 9 logs (integer sweeps: every boundary value occurs)
+	{{0, 0}, {0, 0}},      // 4: transactions and traces but NO logs in any block (every logs bloom is empty)
+	{{}, {2, 2}, {2, 2}},  // 5: a block without transactions FIRST in a 3-block step
+	{{2, 2}, {}, {2, 2}},  // 6: ... in the MIDDLE
+	{{2, 2}, {2, 2}, {}},  // 7: ... LAST
 }
+
+// c14Like: shapes with exactly the declared logs (no decoys) and two traces per transaction.
+func c14Like(shape int) bool { return shape == 2 || shape >= 4 }
 
 var decoyDecl = &world.Decl{Name: "decoy", Event: "Other", Inputs: []world.Input{{Name: "x", Type: "address", Indexed: true, Column: "x"}, {Name: "y", Type: "uint256", Column: "y"}}}
 
 var callTypes = []string{"call", "delegatecall", "staticcall"}
+
+// mkLogNested builds a log for a declaration with multi-dimensional array inputs: the data is the ABI encoding of
+// the nested values (reference encoder), the oracle note holds the flattened innermost elements in order
+// (one row per innermost element, element index counted from 0 over the whole input).
+func mkLogNested(d *world.Decl, s spec, addr []byte, vals, flat []ref.Value) *simeth.Log {
+	l := &simeth.Log{Address: addr, Topics: [][]byte{d.SigHash()}, Note: &world.LogNote{Decl: d, Vals: flat}, Tag: d.Name}
+	var nodes []*ref.Node
+	var nvals []ref.Value
+	for i, in := range s.Inputs {
+		if in.Ix {
+			l.Topics = append(l.Topics, vals[i].([]byte))
+			continue
+		}
+		base, dims := parseDims(in.T)
+		nodes = append(nodes, ref.Leaf(base, dims...))
+		nvals = append(nvals, vals[i])
+	}
+	if len(nodes) > 0 {
+		l.Data = ref.EncodeInputs(nodes, nvals)
+	}
+	return l
+}
 
 func mkChain(s spec, d *world.Decl) *simeth.Chain {
 	shape := shapes[s.Shape]
@@ -214,7 +289,7 @@ func mkChain(s spec, d *world.Decl) *simeth.Chain {
 				sd := fmt.Sprintf("%s/decoy%d", seed, k)
 				return decoyDecl.MkLog(simeth.Addr(sd+"/addr"), world.AddrWord(simeth.Addr(sd+"/x")), simeth.Word(sd+"/y"))
 			}
-			if s.Shape != 2 && ti == 0 {
+			if !c14Like(s.Shape) && ti == 0 {
 				ts.Logs = append(ts.Logs, decoy(0)) // log_idx != position among matching logs
 			}
 			for li := 0; li < nlogs; li++ {
@@ -222,32 +297,63 @@ func mkChain(s spec, d *world.Decl) *simeth.Chain {
 					ts.Logs = append(ts.Logs, decoy(li+1))
 					continue
 				}
-				var vals []ref.Value
+				var vals, flat []ref.Value // flat: per input the value as the projection sees it (arrays flattened to their innermost elements, in order)
+				nested := false
 				for i, in := range s.Inputs {
-					base, arr, k := splitType(in.T)
+					base, dims := parseDims(in.T)
 					sd := fmt.Sprintf("%s/l%d/p%d", seed, li, i)
-					if !arr {
-						vals = append(vals, scalarVal(base, n+2*i+s.VOff, sd))
+					if len(dims) == 0 {
+						v := scalarVal(base, n+2*i+s.VOff, sd)
+						vals, flat = append(vals, v), append(flat, v)
 						continue
 					}
-					cnt := k
-					if k == 0 {
-						cnt = (n + s.VOff) % 4
-						if len(s.ArrLens) > 0 {
-							cnt = s.ArrLens[n%len(s.ArrLens)]
+					if len(dims) == 1 {
+						cnt := dims[0]
+						if cnt == 0 {
+							cnt = (n + s.VOff) % 4
+							if len(s.ArrLens) > 0 {
+								cnt = s.ArrLens[n%len(s.ArrLens)]
+							}
 						}
+						els := []any{}
+						for e := 0; e < cnt; e++ {
+							els = append(els, scalarVal(base, n+2*i+s.VOff+e, fmt.Sprintf("%s/e%d", sd, e)))
+						}
+						vals, flat = append(vals, els), append(flat, els)
+						continue
 					}
-					els := []any{}
-					for e := 0; e < cnt; e++ {
-						els = append(els, scalarVal(base, n+2*i+s.VOff+e, fmt.Sprintf("%s/e%d", sd, e)))
+					// nested arrays: every dynamic dimension has 1..3 elements (an empty inner array has no defined row)
+					nested = true
+					leaves := []any{}
+					var gen func(dd int, path string) any
+					gen = func(dd int, path string) any {
+						if dd < 0 {
+							v := scalarVal(base, n+2*i+s.VOff+len(leaves), sd+path)
+							leaves = append(leaves, v)
+							return v
+						}
+						cnt := dims[dd]
+						if cnt == 0 {
+							cnt = 1 + (n+dd+len(leaves)+s.VOff)%3
+						}
+						els := []any{}
+						for e := 0; e < cnt; e++ {
+							els = append(els, gen(dd-1, fmt.Sprintf("%s/%d", path, e)))
+						}
+						return els
 					}
-					vals = append(vals, els)
+					vals, flat = append(vals, gen(len(dims)-1, "")), append(flat, leaves)
 				}
-				ts.Logs = append(ts.Logs, d.MkLog(simeth.Addr(fmt.Sprintf("%s/l%d/addr", seed, li)), vals...))
+				addr := simeth.Addr(fmt.Sprintf("%s/l%d/addr", seed, li))
+				if nested {
+					ts.Logs = append(ts.Logs, mkLogNested(d, s, addr, vals, flat))
+				} else {
+					ts.Logs = append(ts.Logs, d.MkLog(addr, vals...))
+				}
 				n++
 			}
 			ntr := 1 + (bi+ti)%2
-			if s.Shape == 2 {
+			if c14Like(s.Shape) {
 				ntr = 2
 			}
 			for k := 0; k < ntr; k++ {
